@@ -303,6 +303,7 @@ pub fn run_dgram(e: &mut Entropy, ctx: &mut Ctx) -> Result<Vec<FrameRec>, Failur
             }
             machines.push(m.with(UdpSender { sends: strays.clone(), results: results.clone(), wire: wire.clone() }).arc());
         }
+        let _release = ReleaseOnDrop(machines.clone());
         let (_st, panics) = run_virtual(async { run_internet_with_timeout(&machines, Duration::from_secs(8)).await });
         let frames = wire.snapshot();
         let got = log.lock().unwrap().clone();
